@@ -372,6 +372,30 @@ def rt_sigcmp(req):
                 if get(q) is not want and get(q) != want:
                     problems.append('replace-field: Signature.replace(%s=...) left .%s = %r, expected %r (on %s)' % (
                         kw_, f_, get(q), want, u))
+        # a mixed list: the signature's own (upgraded) parameters next to one plain inspect.Parameter - what a caller that
+        # adds a parameter with inspect's classes passes; the upgraded ones keep provenance and upgraded annotation
+        extra = inspect.Parameter('zz_extra', inspect.Parameter.KEYWORD_ONLY, default=None)
+        plist = list(u.parameters.values())
+        at = next((j for j, q_ in enumerate(plist) if q_.kind == q_.VAR_KEYWORD), len(plist))
+        try:
+            with warnings.catch_warnings():
+                warnings.simplefilter('ignore')
+                q = u.replace(parameters=plist[:at] + [extra] + plist[at:])
+        except ValueError:
+            q = None
+        if q is not None:
+            for prm in u.parameters.values():
+                got_ = q.parameters.get(prm.name)
+                if got_ is None or not isinstance(got_, S.UpgradedParameter):
+                    problems.append('replace-mixed: replace(parameters=<own parameters + one inspect.Parameter>) returned %r for %s' % (got_, prm.name))
+                    break
+                if (got_.sources != prm.sources or got_.source_depths != prm.source_depths or
+                        got_.upgraded_annotation is not prm.upgraded_annotation and got_.upgraded_annotation != prm.upgraded_annotation
+                        or not (got_ == prm)):
+                    problems.append('replace-mixed: replace(parameters=<own parameters + one inspect.Parameter>) changed parameter %s: sources %r -> %r, '
+                                    'upgraded annotation %r -> %r, equal to the one passed in: %r' % (
+                                        prm.name, prm.sources, got_.sources, prm.upgraded_annotation, got_.upgraded_annotation, got_ == prm))
+                    break
         # == implies equal hash (and a working dict lookup) also between a signature of a PEP 563 function and its evaluated() copy,
         # and between copies whose raw annotation was replaced; == is reflexive even for a NaN default
         if len(ps) <= 2 and all(q[1] in ('pk', 'ko') for q in ps):
@@ -1010,6 +1034,82 @@ def rt_alias(req):
 RT['alias'] = rt_alias
 
 
+def rt_handbuilt_nomut(req):
+    """C16 on signatures a USER built by hand (UpgradedSignature / UpgradedParameter without provenance, stored as
+    __signature__, shared between functions, reached through __wrapped__, used as inputs of the algebra): retrieval and the
+    algebra leave them - and the mutable defaults of the constructors they were built with - exactly as they were"""
+    import copy
+    problems = []
+
+    def snap_sig(sg):
+        return (str(sg), copy.deepcopy({k: (list(map(id, v)) if k != '+depths' else {id(a): b for a, b in v.items()})
+                                        for k, v in sg.sources.items()}),
+                tuple((q.name, list(map(id, q.sources)), {id(a): b for a, b in q.source_depths.items()}, id(q.upgraded_annotation))
+                      for q in sg.parameters.values()))
+
+    def ctor_defaults():
+        kd = S.UpgradedParameter.__init__.__kwdefaults__ or {}
+        return {k: copy.copy(v) for k, v in kd.items() if isinstance(v, (list, dict))}
+
+    def target(x, y=0, **kwargs):
+        return (x, y, kwargs)
+
+    def mk_sig():
+        return S.UpgradedSignature([S.UpgradedParameter('a', inspect.Parameter.POSITIONAL_OR_KEYWORD),
+                                    S.UpgradedParameter('b', inspect.Parameter.POSITIONAL_OR_KEYWORD, default=1)])
+    shared = mk_sig()
+
+    def f(*args, **kwargs):
+        return None
+
+    def g(*args, **kwargs):
+        return None
+    f.__signature__ = shared
+    g.__signature__ = shared
+
+    @functools.wraps(f)
+    def w(*args, **kwargs):
+        return f(*args, **kwargs)
+    part = functools.partial(target, extra=1)          # a keyword only **kwargs can take: shown as a new keyword-only parameter
+
+    def fwd(*args, **kwargs):
+        return part(*args, **kwargs)
+    loose = mk_sig()
+    before = (snap_sig(shared), snap_sig(loose), ctor_defaults())
+    steps = [
+        ('sigtools.signature(f)', lambda: sigtools.signature(f)),
+        ('signatures.signature(g)', lambda: signatures.signature(g)),
+        ('sigtools.signature(functools.wraps wrapper of f)', lambda: sigtools.signature(w)),
+        ('inspect.signature(w)', lambda: inspect.signature(w)),
+        ('signatures.signature(partial(target, extra=1))', lambda: signatures.signature(part)),
+        ('sigtools.signature(function forwarding to that partial)', lambda: sigtools.signature(fwd)),
+        ('merge(hand-built, hand-built)', lambda: signatures.merge(loose, shared)),
+        ('embed(signature(fwd), hand-built)', lambda: signatures.embed(signatures.signature(fwd), loose)),
+        ('mask(hand-built, 1)', lambda: signatures.mask(loose, 1)),
+        ('forwards(signature(fwd), hand-built)', lambda: signatures.forwards(signatures.signature(fwd), loose)),
+    ]
+    for label, fn in steps:
+        try:
+            with warnings.catch_warnings():
+                warnings.simplefilter('ignore')
+                fn()
+        except ValueError:
+            pass
+        except Exception as e:  # noqa
+            problems.append('handbuilt-raises: %s raised %s: %s' % (label, type(e).__name__, e))
+        now = (snap_sig(shared), snap_sig(loose), ctor_defaults())
+        if now != before:
+            what = ['the signature stored as __signature__ of two functions', 'a hand-built signature only used as an input',
+                    'the mutable default arguments of UpgradedParameter.__init__'][[a != b for a, b in zip(now, before)].index(True)]
+            problems.append('handbuilt-mutated: %s changed %s: before %r, after %r' % (
+                label, what, before[[a != b for a, b in zip(now, before)].index(True)], now[[a != b for a, b in zip(now, before)].index(True)]))
+            break
+    return ('ok', tuple(problems[:2]), 'probed')
+
+
+RT['handbuilt_nomut'] = rt_handbuilt_nomut
+
+
 # ----------------------------------------------------------------------------- C13: wrappers
 def _params_src(ps):
     return core.def_source(ps, name='X', body='pass').split('(', 1)[1].rsplit('):', 1)[0]
@@ -1024,6 +1124,9 @@ def rt_wrap(req):
     depth = len(own_list)
     # decorated function: records its arguments
     fparams = list(fps)
+    falsy = placement == 'method_falsy'
+    if falsy:
+        placement = 'method'
     if placement in ('method',):
         fparams = [core.P('self', 'pk')] + fparams
     ret = 'return ("f", %s)' % ', '.join(
@@ -1098,6 +1201,8 @@ def rt_wrap(req):
         lines += ['hand = ' + hand]
     else:
         lines += ['class C(object):']
+        if falsy:
+            lines += ['    def __len__(self):', '        return 0']      # an empty container: a falsy receiver
         if placement == 'staticmethod':
             lines += ['    @staticmethod']
         lines += ['    ' + l for l in decos + fdef]
@@ -1191,10 +1296,15 @@ def rt_combination(req):
     from . import progs, oracles as O
     flist = req[1]
     firsts = req[2] if len(req) > 2 else ('arg',) * len(flist)     # name of each function's first parameter
+    fwd = req[3] if len(req) > 3 else ()             # members that forward their stars to a helper (discovered automatically)
     lines = ['from sigtools import wrappers']
     for i, ps in enumerate(flist):
         full = [core.P(firsts[i], 'pk')] + list(ps)
-        lines += core.def_source(full, name='c%d' % i, body='return (%d, %s)' % (i, firsts[i])).rstrip('\n').split('\n')
+        if i in fwd:
+            lines += core.def_source(full, name='h%d' % i, body='return (%d, %s)' % (i, firsts[i])).rstrip('\n').split('\n')
+            lines += ['def c%d(%s, *args, **kwargs):' % (i, firsts[i]), '    return h%d(%s, *args, **kwargs)' % (i, firsts[i])]
+        else:
+            lines += core.def_source(full, name='c%d' % i, body='return (%d, %s)' % (i, firsts[i])).rstrip('\n').split('\n')
     lines += ['comb = wrappers.Combination(%s)' % ', '.join('c%d' % i for i in range(len(flist)))]
     src = '\n'.join(lines) + '\n'
     mod, fname = progs.load_module(src)
